@@ -92,6 +92,25 @@ def main():
                             el = False
                     if exactly_representable(n1) and exactly_representable(n2):
                         add("sub-arcs", n1=n1, n2=n2, a=a, b=b, c=c, d=d, degree=n, elevated=el)
+        # ---- straight parents presented with a NON-LINEAR parametrisation: collinear, unevenly spaced control points of degree
+        # 2..4 on a slanted line (regular and injective: x strictly increasing); their sub-arcs are curves with a non-zero
+        # linearisation error whose control nets are all collinear - the candidate pairs reach the pruning stage
+        # (convex_hull_collide on two segments -> line_line_collide) instead of the closed-form line / line branch
+        for n in (2, 3, 4):
+            for _ in range(3 if not thorough else 16):
+                xs = [Fr(0)]
+                for _ in range(n):
+                    xs.append(xs[-1] + Fr(rnd.randint(1, 8), 2))
+                if all(xs[i + 1] - xs[i] == xs[1] - xs[0] for i in range(n)):
+                    xs[-1] += 2
+                m, c0 = Fr(rnd.choice([1, -1, 2, -2, 3]), rnd.choice([1, 2, 4])), Fr(rnd.randint(-4, 4), 2)
+                parent = [xs, [m * x + c0 for x in xs]]
+                for a, b, c, d in [(Fr(0), Fr(3, 4), Fr(1, 4), Fr(1)), (Fr(0), Fr(1), Fr(1, 4), Fr(3, 4)), (Fr(1, 4), Fr(3, 4), Fr(0), Fr(1)),
+                                   (Fr(0), Fr(3, 4), Fr(1), Fr(1, 4)), (Fr(0), Fr(1, 2), Fr(1, 2), Fr(1)), (Fr(0), Fr(1, 4), Fr(1, 2), Fr(1)),
+                                   (Fr(1, 8), Fr(5, 8), Fr(7, 8), Fr(3, 8))]:
+                    n1, n2 = sub_arc(parent, a, b), sub_arc(parent, c, d)
+                    if exactly_representable(n1) and exactly_representable(n2):
+                        add("sub-arcs", n1=n1, n2=n2, a=a, b=b, c=c, d=d, degree=n, elevated=False, straight=True)
         # ---- collinear lattice segments on the 5x5 grid (exhaustive in thorough, sampled in quick)
         pts = [(x, y) for x in range(5) for y in range(5)]
         segs = [(p, q) for p in pts for q in pts if p != q]
